@@ -9,7 +9,10 @@ from harness.common import Report
 SEEDS = ["CC(=O)OCC>>CCO", "CC(=O)OC>>CC(=O)O", "CCC(=O)OC>>CO", "BrBr>>Cl", "CC>>CCC", "CCO>>CCO",
          "CCBr.[OH-]>>CCO", "CS(=O)(=O)OC.CC(=O)OC>>CC(=O)O", "CC(=O)Cl.N>>CC(N)=O", "CCO>>CC(=O)O",
          "CCO.O>>CC(=O)O", "c1ccccc1>>c1ccccc1Cl", "CC=O>>CCO", "OC(=O)c1ccccc1.[N-]=[N+]=[N-]>>Nc1ccccc1",
-         "CCOC(=O)CCCCC(=O)OCC>>O=C1CCCC1.CCO.CCO", "COC(=O)c1ccccc1>>OC(=O)c1ccccc1"]
+         "CCOC(=O)CCCCC(=O)OCC>>O=C1CCCC1.CCO.CCO", "COC(=O)c1ccccc1>>OC(=O)c1ccccc1",
+         # redox rows (reagent templates): single and double oxidations / reductions
+         "CC(O)CC(C)O>>CC(=O)CC(C)=O", "OCCCO>>O=CCC=O", "CCCO>>CCC=O", "CC(O)C>>CC(C)=O", "CC(=O)C>>CC(O)C",
+         "O=CCC=O>>OCCCO", "CCC=O>>CCC(=O)O", "OCC(O)CO>>O=CC(=O)C=O", "CC(=O)CC(C)=O>>CC(O)CC(C)O"]
 
 
 def _row(e):
